@@ -36,12 +36,12 @@ PROP = dict(
 MANIFEST = dict(
     text="Schedule independence proved for every split tree of the parallel skeletons the partitioners are made of (fold+reduce "
          "with a homomorphic fold, exact integer sums, per-part histograms, min/max, writes to pairwise distinct indices), in "
-         "Lib/Rayon.v, and at algorithm level (collected in Properties/C06.v, glue in Proofs/C06Collect.v): the tools' dual "
+         "Lib/Rayon.v, and at algorithm level (collected in Properties/C06.v from the property theorems of C18, C16, C11, C09 by name, glue in Proofs/C06Collect.v): the tools' dual "
          "graph is the same for any two orders of its row writes and copies; compute_parts_load / imbalance / sum() for any two "
          "split trees; MultiJagged: any two leaf orders give the same partition up to renaming, block decomposition of the scan "
          "irrelevant at exact arithmetic (partial); Rcb/Rib: for any two split trees the split fold returns the exact left "
          "weight and a pivot of minimal coordinate on the right, so the pivot value and the split sets do not depend on the tree "
-         "(partial: not lifted to the whole recursion); ZCurve: every sort oracle yields runs of the same cell codes (partial); "
+         "(partial: not lifted to the whole recursion; a place is reserved for the rcb_sched_indep theorem announced by the C03/C04 development); ZCurve: every sort oracle yields runs of the same cell codes (partial); "
          "HilbertCurve: ids total and monotone for every split vector (partial). Each case of the harness runs the real entry point under six pool sizes twice and the exact all-equal "
          "checker (up to renaming for MultiJagged) compares the twelve outputs. Pool-size dependence of the OBB-based algorithms on "
          "inputs whose point count is not a power of two is a known finding (inexact inertia sums).",
